@@ -65,7 +65,9 @@ def history_plan(rng, tier, levels, silent_streak=False, identity_changes=True, 
             cfg["engine_id"] = eng
         elif rng.random() < 0.35:
             cfg["engine_id_empty"] = True
-        sessions.append(cfg)
+        from .base import ctor_variations
+
+        sessions.append(ctor_variations(rng, cfg))
     rows = agent["mib"]
     oids = [r[0] for r in rows] or ["1.3.6.1.2.1.1.1.0"]
     ops = []
@@ -76,6 +78,8 @@ def history_plan(rng, tier, levels, silent_streak=False, identity_changes=True, 
         mine = []
         opid += 1
         mine.append({"id": opid, "s": s, "op": "refresh"})
+        if rng.random() < 0.3:
+            mine[-1]["via"] = "enter"  # `with SnmpSession(...)` / `async with`
         if rng.random() < 0.3 and not silent_streak:
             # the first refresh (discovery / time sync) fails, the application retries later
             k = rng.choice([1, 2])
